@@ -113,7 +113,23 @@ def build(s, log, state):
 
     inp = PROTS[fam][0](validator='soft')
     outp = PROTS[fam][1]()
+    # the service class is also part of ANOTHER application, which has served a call of the same method before:
+    # whose listeners see the events of a call is decided by the application that serves it
+    sib_log = []
+    sib = Application([S], 'tns', name='Sibling', in_protocol=PROTS[fam][0](validator='soft'), out_protocol=PROTS[fam][1]())
+    for e in CTX_EVENTS:
+        sib.event_manager.add_listener(e, (lambda e: lambda ctx: sib_log.append(e))(e))
+    state['sibling'] = (sib, sib_log)
     app = Application([S], 'tns', in_protocol=inp, out_protocol=outp)
+    # a one-shot listener that takes itself off the list while the event is being fired, registered BEFORE the others
+    for e in ('method_call', 'method_return_object', 'method_exception_object'):
+        def once(ctx, e=e, box=[]):
+            if not box:
+                box.append(1)
+                app.event_manager.del_listener(e, box_fn[e])
+        box_fn = state.setdefault('once', {})
+        box_fn[e] = once
+        app.event_manager.add_listener(e, once)
     for e in CTX_EVENTS:
         app.event_manager.add_listener(e, L('app', e))
         mev.add_listener(e, L('meth', e))
@@ -215,6 +231,35 @@ def run(s):
     units = bool(s.get('units'))
     app = build(s, log, state)
     env, body = body_for(s)
+    if s['req'].get('kind', 'rpc') == 'rpc' and s['req']['class'] == 'valid':
+        # the sibling application serves one call of the same method first (through a bare ServerBase), unrecorded
+        sib, sib_log = state['sibling']
+        inj_saved = dict(s['inj'])
+        try:
+            sv = ServerBase(sib)
+            c0 = MethodContext(sv, MethodContext.SERVER)
+            if s['cfg']['family'] == 'http':
+                pass          # (HttpRpc needs a WSGI environ: the sibling is not primed for this family)
+            else:
+                c0.in_string = [body]
+                for k_ in ('call', 'fn', 'ret', 'ser'):
+                    s['inj'][k_] = 'ok'
+                p0 = sv.generate_contexts(c0)[0]
+                if not p0.in_error:
+                    sv.get_in_object(p0)
+                if not p0.in_error:
+                    sv.get_out_object(p0)
+                sv.get_out_string(p0)
+                b''.join(p0.out_string)
+                p0.close()
+        except Exception:
+            pass
+        finally:
+            s['inj'].update(inj_saved)
+        del log[:]
+        state['fnOk'] = False
+        state['ctx'] = None
+        state.pop('in_fn', None)
     U = UNIT if units else 0
     rec = {'scen': s}
     status = [0]; hdr_ok = [True]; clen = [-1]; body_bytes = [0]; bytes_ok = [True]
